@@ -82,7 +82,9 @@ impl C16 {
 
     /// In-box, provenance and congruence of every stored vertex. `perturbed` = the operation may
     /// have used the documented perturbation retry (1e-8 x local scale x (axis+1)).
-    fn check_vertices<K: SimKernel<D>, const D: usize>(&self, ctx: &mut StepCtx<'_, K, D>, t: &Torus, pre: Option<&Snap>, snap: &Snap, when: &str) {
+    fn check_vertices<K: SimKernel<D>, const D: usize>(&self, ctx: &mut StepCtx<'_, K, D>, t: &Torus, pre: Option<&Snap>, snap: &Snap, when: &str, out: &Outcome) {
+        // did any insertion inside this call go through a perturbation retry (or a heuristic rebuild, which re-inserts everything)?
+        let retried = out.tick_kinds.iter().any(|(k, _)| k == "insert.perturbation_retry" || k == "rebuild.attempt");
         let mode = if t.periodic { "periodic" } else { "canonicalized" };
         // scale of the documented perturbation: the bounding diagonal of the point set the
         // insertions run on - the box itself, or the 3^D image copies of it in periodic mode
@@ -102,7 +104,7 @@ impl C16 {
                             "vertex-outside-fundamental-box",
                             ctx.step,
                             format!(
-                                "mode={mode}|after={when}|{}|{}",
+                                "mode={mode}|after={when}|{}|{}|retry={retried}",
                                 if s == l { "equals-period" } else if s < 0.0 { "negative" } else { "beyond-period" },
                                 // how far outside: within the documented perturbation (1e-8 x scale x (axis+1)) or not
                                 if (if s < 0.0 { -s } else { s - l }) <= 1.0001e-8 * diag.max(1.0) * (ax as f64 + 1.0) { "by-at-most-a-perturbation" } else { "far" }
@@ -125,7 +127,9 @@ impl C16 {
             if exact {
                 continue;
             }
-            let perturbed = matches(&|ax, l| l * 2.0f64.powi(-52) + 1.0001e-8 * diag.max(1.0) * (ax as f64 + 1.0));
+            // periodic mode always applies its own (documented, clamped) per-vertex offset of a few 1e-10 L
+            let perturbed = (retried && matches(&|ax, l| l * 2.0f64.powi(-52) + 1.0001e-8 * diag.max(1.0) * (ax as f64 + 1.0)))
+                || (t.periodic && matches(&|_, l| l * 1e-9));
             if perturbed {
                 ctx.stats.bump("c16.vertex_within_perturbation");
                 continue;
@@ -178,7 +182,7 @@ impl<K: SimKernel<D>, const D: usize> Monitor<K, D> for C16 {
                 if !t.meta.contains("Toroidal") {
                     push_violation(ctx.violations, violation("C16", "toroidal-metadata-missing", ctx.step, format!("mode={mode}|after=new"), format!("global_topology() = {} after a toroidal build", t.meta)));
                 }
-                self.check_vertices(ctx, &t, None, post, "new");
+                self.check_vertices(ctx, &t, None, post, "new", out);
                 if t.periodic {
                     ctx.stats.bump("c16.periodic_built");
                     // closed surface: every neighbour slot filled, chi = V - E + F = V - F/2 = 0 in 2D
@@ -293,7 +297,7 @@ impl<K: SimKernel<D>, const D: usize> Monitor<K, D> for C16 {
                     self.torus.remove(&obj);
                     return;
                 }
-                self.check_vertices(ctx, &t, pre, post, when);
+                self.check_vertices(ctx, &t, pre, post, when, out);
                 if matches!(other, Op::Insert { .. }) && out.kind == OutKind::Ok {
                     ctx.stats.bump("c16.later_insert_ok");
                 }
